@@ -138,6 +138,14 @@ def keyTable (sp : StripFn) (k : KeyDecl) (root : Loc) : Option (List (String ×
 def keyLookup (sp : StripFn) (k : KeyDecl) (root : Loc) (s : String) : Option (List XNode) :=
   (keyTable sp k root).map fun t => docOrder ((t.filter fun e => e.1 == s).map fun e => .node e.2)
 
+/-- `key(name, arg)`: a node-set argument is looked up once per member, with that member's string value
+(`FunctionKey::execute`: `DOMServices::getNodeData(*theNodeSet.item(i), executionContext, ref)` in the loop, `str()`
+for one node), the results united in document order; any other argument through its string conversion -/
+def keyLookupArg (sp : StripFn) (k : KeyDecl) (root : Loc) : Option Value → Option (List XNode)
+  | some (.ns l) => (mergeStep (fun x => keyLookup sp k root (x.strVal sp)) l).map docOrder
+  | some v => keyLookup sp k root (v.toStr sp)
+  | none => none
+
 /-! ### xsl:number level="any" -/
 
 def Loc.prevSibling (l : Loc) : Option Loc := l.precedingSiblings.head?
